@@ -11,12 +11,31 @@ static char note[200]; static uint8_t orig[6][80]; static uint8_t argtext[4096];
 void chk_describe(FILE *f) { w_describe(f); fprintf(f, "%s\n", note); char b[6000]; fmt_bytes(b, sizeof b, argtext, arglen > 1400 ? 1400 : arglen); fprintf(f, "captured READ arguments: \"%s\"\n", b); io_describe(f); }
 
 static struct { int type; size_t size; uint8_t val[80]; } SP[6]; static int NV;
+static bool with_events, got_data; static char data_unit[4600]; static size_t data_len; static int ncodes, last_ok;
+static void on_unit(bool isA, bool raw, const char *text, size_t len, bool a, bool b)
+{
+        (void)raw; (void)a; (void)b;
+        if (!isA) return;
+        if (strcmp(text, "OK") == 0 || strcmp(text, "ERROR") == 0) { ncodes++; last_ok = text[0] == 'O'; return; }
+        if (!got_data && len < sizeof data_unit) { memcpy(data_unit, text, len + 1); data_len = len; got_data = true; }
+}
+/* service to quiescence; with events enabled one READ event of "+EV" is triggered at a random service step */
+static bool service_with_event(int nev)
+{
+        long trig = with_events ? (long)rn(60) : -1;
+        for (long i = 0; i < 400000; i++) {
+                if (i == trig && nev) (void)cat_trigger_unsolicited_event(W.at, W.cmd[1], CAT_CMD_TYPE_READ);
+                cat_status st = svc();
+                if (st == CAT_STATUS_OK && INPOS >= INLEN && i >= trig) return true;
+        }
+        return false;
+}
 static uint32_t edge32(void) { static const uint32_t e[] = { 0, 1, 0x7f, 0x80, 0xff, 0x100, 0x7fff, 0x8000, 0xffff, 0x10000, 0x7fffffff, 0x80000000u, 0xffffffffu, 0x80000001u, 0xfffffffeu }; return chance(60) ? e[rn(15)] + rn(3) - 1 : (uint32_t)(rnd() >> rn(64)); }
 static void rand_spec(int j)
 {
         SP[j].type = (int)rn(5);
         if (SP[j].type <= CAT_VAR_NUM_HEX) { SP[j].size = (size_t[]){ 1, 2, 4 }[rn(3)]; uint32_t x = edge32(); memcpy(SP[j].val, &x, 4); }
-        else if (SP[j].type == CAT_VAR_BUF_HEX) { SP[j].size = 1 + rn(chance(20) ? 64 : 8); for (size_t b = 0; b < SP[j].size; b++) SP[j].val[b] = (uint8_t)(chance(40) ? (uint8_t[]){ 0x00, 0x80, 0xff, 0x7f }[rn(4)] : rnd()); }
+        else if (SP[j].type == CAT_VAR_BUF_HEX) { SP[j].size = chance(25) ? 17 + rn(48) : 1 + rn(chance(20) ? 64 : 8); for (size_t b = 0; b < SP[j].size; b++) SP[j].val[b] = (uint8_t)(chance(40) ? (uint8_t[]){ 0x00, 0x80, 0xff, 0x7f }[rn(4)] : rnd()); }
         else {
                 SP[j].size = 1 + rn(chance(20) ? 64 : 8);
                 size_t L = rn((unsigned)SP[j].size);
@@ -30,8 +49,15 @@ static void rand_spec(int j)
 static void round_trip(int capmode)
 {
         w_begin();
-        struct cat_command *a = w_group(1, false);
+        with_events = chance(35);
+        struct cat_command *a = w_group(with_events ? 2 : 1, false);
         a[0].name = xstr("+RT"); a[0].need_all_vars = chance(50);
+        if (with_events) {      /* an unsolicited READ of another command is formatted and flushed while the round trip is in progress */
+                a[1].name = xstr("+EV");
+                struct cat_variable *ev = w_vars(&a[1], 2);
+                ev[0].type = CAT_VAR_BUF_HEX; { size_t sz = chance(60) ? 17 + rn(48) : 1 + rn(16); uint8_t *d = w_vdata(&ev[0], sz); for (size_t b = 0; b < sz; b++) d[b] = (uint8_t)rnd(); }
+                ev[1].type = CAT_VAR_BUF_STRING; { uint8_t *d = w_vdata(&ev[1], 12); memcpy(d, "ev\"t,\\x", 8); }
+        }
         struct cat_variable *v = w_vars(&a[0], (size_t)NV);
         for (int j = 0; j < NV; j++) { v[j].type = (cat_var_type)SP[j].type; v[j].access = CAT_VAR_ACCESS_READ_WRITE; uint8_t *d = w_vdata(&v[j], SP[j].size); memcpy(d, SP[j].val, SP[j].size); memcpy(orig[j], d, SP[j].size); }
         /* capacity: the response text is "+RT=" + args; the write needs args+1 <= cap.  capmode 0 generous, 1 exactly fitting the READ text, 2 one more */
@@ -40,21 +66,21 @@ static void round_trip(int capmode)
         if (capmode && tl > 0) cap = (size_t)tl + 1 + (size_t)(capmode - 1);
         if (cap < 8) cap = 8;
         bool shared = chance(50);
-        w_buffers(shared ? cap * 2 + rn(2) : cap, shared, 0);
+        w_buffers(shared ? cap * 2 + rn(2) : cap, shared, with_events ? 200 : 0);
         w_init((int)rn(2));
-        in_reset(); in_puts("AT+RT?\n"); out_reset(); units_reset();
-        if (run_quiet(200000) < 0) { inconclusive("no quiescence"); return; }
-        /* expected output: \n+RT=<args>\n \nOK\n : take the data unit straight from the byte stream */
-        if (OUTN < 10 || memcmp(OUTB, "\n+RT=", 5) != 0 || memcmp(OUTB + OUTN - 5, "\n\nOK\n", 5) != 0) {
+        ON_UNIT = on_unit;
+        in_reset(); in_puts("AT+RT?\n"); out_reset(); units_reset(); got_data = false; ncodes = 0;
+        if (!service_with_event(1)) { inconclusive("no quiescence"); return; }
+        if (!got_data || ncodes != 1 || last_ok != 1 || strncmp(data_unit, "+RT=", 4) != 0) {
                 if (capmode == 0) viol("C07", "read-refused", "AT+RT? with generous capacity was not answered with a data line and OK");
                 else CNT("read_did_not_fit");          /* reference length and real length may differ only if the formatter changed: C19/C06 territory */
                 return;
         }
-        arglen = OUTN - 10; memcpy(argtext, OUTB + 5, arglen);
+        arglen = data_len - 4; memcpy(argtext, data_unit + 4, arglen);
         for (int j = 0; j < NV; j++) { uint8_t *d = v[j].data; for (size_t b = 0; b < SP[j].size; b++) d[b] = (uint8_t)(SP[j].type == CAT_VAR_BUF_STRING ? 0xA5 + b : d[b] ^ 0x5A); }
-        in_reset(); in_puts("AT+RT="); in_put(argtext, arglen); in_putc('\n'); out_reset(); units_reset();
-        if (run_quiet(200000) < 0) { inconclusive("no quiescence"); return; }
-        CNT("round_trips");
+        in_reset(); in_puts("AT+RT="); in_put(argtext, arglen); in_putc('\n'); out_reset(); units_reset(); got_data = false; ncodes = 0;
+        if (!service_with_event(1)) { inconclusive("no quiescence"); return; }
+        CNT("round_trips"); if (with_events) CNT("round_trips_with_concurrent_events");
         if (!(RESULT_CODES == 1 && LAST_CODE == 'O')) { viol("C07", "write-back-refused", "the argument list printed by READ was not accepted by WRITE (capacity %zu, text %zu bytes)", W.capA, arglen); return; }
         for (int j = 0; j < NV; j++) {
                 size_t n = SP[j].size;
